@@ -406,4 +406,97 @@ theorem ceff_const (rd : Rnd) (c : CState) (v : ℚ) (h : c.cap = some (.const v
     c.ceff rd = rd.r32 v := by
   simp [CState.ceff, CState.cstore, CState.step, h, Cap.store, Store.asF]
 
+/-! ## the values returned by the calls of a history on one object (seed C07-10) -/
+
+/-- the STE form and quantized_linear's form read the storage only through the float32 factor -/
+theorem outF_asF (rd : Rnd) (s q : ℚ) (st : Store) (fm : Form) (h : fm ≠ .two false) :
+    fm.outF rd s q st = fm.outF rd s q (.var (st.asF rd)) := by
+  cases fm with
+  | two u =>
+    cases u with
+    | false => exact absurd rfl h
+    | true => rfl
+  | linear => rfl
+
+/-- in the real-number reading every form is `s + f (q − s)` -/
+theorem outF_exact (s q : ℚ) (st : Store) (fm : Form) :
+    fm.outF Rnd.exact s q st = s + st.asF Rnd.exact * (q - s) := by
+  cases fm with
+  | two u =>
+    cases u <;> cases st <;>
+      simp only [Form.outF, mixF, mixSteF, mixNoSteF, Store.asF, Store.oneMinus, Rnd.exact, id,
+        if_true, Bool.false_eq_true, if_false] <;> ring
+  | linear => cases st <;> simp [Form.outF, mixLinearF, Store.asF, Rnd.exact]
+
+theorem callFactors_cons_other (r : ℚ → ℚ) (cur : ℚ) (op : Op) (ops : List Op)
+    (h : lastWrite [op] = none) (hc : op ≠ .call) :
+    callFactors r cur (op :: ops) = callFactors r cur ops := by
+  cases op <;> simp_all [callFactors, lastWrite]
+
+/-- if the return expression reads the storage only through the effective factor (`g`), the values
+    returned by the calls of ANY history are `g` of the property's own factor list -/
+theorem outs_of_factor (rd : Rnd) (fm : Form) (s q : ℚ) (g : ℚ → ℚ)
+    (hg : ∀ st : Store, fm.outF rd s q st = g (st.asF rd)) (ops : List Op) :
+    ∀ st : QState, (∀ op ∈ ops, Op.WF rd op) →
+      QState.outs rd fm s q st ops = (callFactors rd.r32 (st.eff rd) ops).map g := by
+  induction ops with
+  | nil => intro st _; rfl
+  | cons op ops ih =>
+    intro st hwf
+    have hop := hwf op (by simp)
+    have h2 := ih (st.step rd op).1 (fun o ho => hwf o (by simp [ho]))
+    have he := eff_step rd st op hop
+    simp only [QState.outs, h2]
+    cases op with
+    | build b =>
+      simp only [lastWrite] at he
+      simp [callFactors, he]
+    | update v =>
+      simp only [lastWrite, Option.or] at he
+      simp [callFactors, he]
+    | updateFromVar v =>
+      simp only [lastWrite, Option.or] at he
+      simp [callFactors, he]
+    | setUseVars b =>
+      simp only [lastWrite] at he
+      simp [callFactors, he]
+    | call =>
+      simp only [lastWrite] at he
+      have : fm.outF rd s q (st.step rd .call).1.store = g (st.eff rd) := by
+        rw [hg]; exact congrArg g he
+      simp [callFactors, he, this]
+
+/-- at a factor of exactly 0 the float32 evaluation of every form IS the surrogate, bit for bit
+    (`s` a float32 value; the roundings fix 0 and 1) -/
+theorem outF_zero (rd : Rnd) (h0 : rd.r32 0 = 0) (h1 : rd.r32 1 = 1) (h64 : rd.r64 1 = 1)
+    (s q : ℚ) (hs : rd.r32 s = s) (fm : Form) (st : Store) (hz : st.raw = 0) :
+    fm.outF rd s q st = s := by
+  cases st with
+  | py v =>
+    simp only [Store.raw] at hz; subst hz
+    cases fm with
+    | two u =>
+      cases u <;> simp [Form.outF, mixF, mixSteF, mixNoSteF, Store.asF, Store.oneMinus, h0, h1, h64, hs]
+    | linear => simp [Form.outF, mixLinearF, Store.asF, h0, hs]
+  | var v =>
+    simp only [Store.raw] at hz; subst hz
+    cases fm with
+    | two u =>
+      cases u <;> simp [Form.outF, mixF, mixSteF, mixNoSteF, Store.asF, Store.oneMinus, h0, h1, hs]
+    | linear => simp [Form.outF, mixLinearF, Store.asF, h0, hs]
+
+theorem outsShortcut_eq (rd : Rnd) (fm : Form) (s q : ℚ)
+    (hz : ∀ st : Store, st.raw = 0 → fm.outF rd s q st = s) (ops : List Op) :
+    ∀ st : QState, QState.outsShortcut rd fm s q st ops = QState.outs rd fm s q st ops := by
+  induction ops with
+  | nil => intro st; rfl
+  | cons op ops ih =>
+    intro st
+    simp only [QState.outsShortcut, QState.outs, ih]
+    by_cases hc : op = .call
+    · by_cases h : (st.step rd op).1.store.raw = 0
+      · simp [hc, hz _ (hc ▸ h)]
+      · simp [hc, hc ▸ h]
+    · simp [hc]
+
 end QKV.QNoise
